@@ -44,14 +44,57 @@ ALL_CLASSES = ["Claim:nil", "Claim:clamped", "Claim:full", "Claim:clamped:crossi
                "Consume:zero", "Consume:full", "Consume:clamped", "Reset", "Prefault"]
 
 
+CHUNK = 150000      # trace lines per TLC process (keeps a validator below ~1.5 GB)
+
+
+def _validate_chunks(sw, trace, par):
+    """vlib.validate_trace starts one TLC per part, all at once; a 900 MB trace (16 pages) then needs 8 x 3.5 GB.
+    Same procedure here, but in parts of at most CHUNK lines, `par` at a time."""
+    from concurrent.futures import ThreadPoolExecutor
+    files, out, n, last = [], None, 0, None
+    with open(trace) as f:              # streaming split at scenario boundaries
+        for line in f:
+            m = vlib.SID_RE.search(line)
+            sid = m.group(1) if m else last
+            if out is None or (n >= CHUNK and sid != last):
+                if out:
+                    out.close()
+                files.append("%s.c%d" % (trace, len(files)))
+                out, n = open(files[-1], "w"), 0
+            out.write(line)
+            n += 1
+            last = sid
+    if out:
+        out.close()
+
+    def one(fn):
+        r = vlib.tlc(sw, "MirrorMonTrace", "MirrorMonTrace.cfg", workers=1, timeout=1800, env={"TRACE": fn})
+        if not r.ok:
+            raise vlib.Inconclusive("trace validation with MirrorMonTrace did not complete: %s\n%s" % (
+                r.error or r.violated, r.tail(30)))
+        out = []
+        for line in r.lines('<<"BAD"'):
+            m = vlib.BAD_RE.match(line)
+            if m:
+                out.append((int(m.group(1)), int(m.group(2)), m.group(3)))
+        os.remove(r.outpath)
+        if fn != trace:
+            os.remove(fn)
+        return out
+
+    with ThreadPoolExecutor(max_workers=par) as ex:
+        bads = [b for part in ex.map(one, files) for b in part]
+    bads.sort()
+    return bads
+
+
 def _validate(ck, sw, name, beh, label, mode="", seed=1):
     trace = os.path.join(ck.work, "trace_%s.ndjson" % name)
     args = ["mirror", "-in", beh, "-out", trace]
     if mode:
         args += ["-mode", mode, "-seed", str(seed)]
     summ, _ = vlib.run_replay(args, timeout=1800)
-    bads, r = vlib.validate_trace(sw, "MirrorMonTrace", "MirrorMonTrace.cfg", trace, timeout=1800,
-                                  parallel=getattr(ck, "vpar", 8))
+    bads = _validate_chunks(sw, trace, getattr(ck, "vpar", 8))
     ck.cov["evaluations"] += summ["scenarios"]
     ck.cov["distinct_nontrivial"] += summ["nontrivial"]
     ck.cov["traces_validated_against_impl"] += summ["scenarios"] - len({b[0] for b in bads})
